@@ -231,3 +231,18 @@ def body_consts(body):
 
 def body_strings(body):
     return [k["str"] for _, k, _ in body_consts(body) if "str" in k]
+
+
+def discr_edges(cfg, bb, index):
+    """edges of the discriminant switch at bb taken when the discriminant equals `index`
+    (the explicit target if listed, otherwise the shared `otherwise` edge)"""
+    tm = cfg.body.blocks[bb]["term"]
+    explicit = [(bb, tgt) for v, tgt in tm["targets"] if v == index]
+    if explicit:
+        return explicit
+    # `otherwise` leading to an `unreachable` block is not a real edge
+    ot = tm["otherwise"]
+    t2 = cfg.body.blocks[ot]["term"]
+    if t2 is not None and t2["k"] == "unreachable":
+        return []
+    return [(bb, ot)]
